@@ -31,6 +31,8 @@ func Main(args []string) int {
 		return cmdRun(args[1:])
 	case "check":
 		return cmdCheck(args[1:])
+	case "selftest":
+		return cmdSelftest(args[1:])
 	}
 	fmt.Fprintln(os.Stderr, "unknown command", args[0])
 	return 2
